@@ -28,6 +28,7 @@ import (
 	"strconv"
 	"strings"
 	"sync"
+	"sync/atomic"
 	"syscall"
 	"time"
 )
@@ -238,14 +239,30 @@ type Record struct {
 	Sample       string          `json:"sample"`
 }
 
+// covRec: dense accumulator in the driver; workers send only the sites they touched.
 type covRec struct {
-	Coverage bool     `json:"coverage"`
-	Exec     []uint32 `json:"exec"`
-	Co       []uint8  `json:"co"`
-	Pre      []uint32 `json:"pre"`
-	Base     []uint8  `json:"base"`
-	WallS    float64  `json:"wall_s"`
-	Runs     int      `json:"runs"`
+	Coverage bool        `json:"coverage"`
+	N        int         `json:"n"`
+	Sites    [][5]uint32 `json:"sites"`
+	Exec     []uint32    `json:"-"`
+	Co       []uint8     `json:"-"`
+	Pre      []uint32    `json:"-"`
+	Base     []uint8     `json:"-"`
+	WallS    float64     `json:"wall_s"`
+	Runs     int         `json:"runs"`
+}
+
+func (c *covRec) dense() {
+	if c.Exec != nil {
+		return
+	}
+	c.Exec, c.Co, c.Pre, c.Base = make([]uint32, c.N), make([]uint8, c.N), make([]uint32, c.N), make([]uint8, c.N)
+	for _, s := range c.Sites {
+		if int(s[0]) < c.N {
+			c.Exec[s[0]], c.Co[s[0]], c.Pre[s[0]], c.Base[s[0]] = s[1], uint8(s[2]), s[3], uint8(s[4])
+		}
+	}
+	c.Sites = nil
 }
 
 type workerResult struct {
@@ -262,11 +279,14 @@ func runWorker(bin string, id string, args []string, procs int, stallLimit time.
 	out := filepath.Join(scratch, "out."+id+".jsonl")
 	race := filepath.Join(scratch, "race."+id)
 	full := append([]string{"-out", out, "-racelog", race}, args...)
+	if probeFile != "" {
+		full = append(full, "-cat", probeFile)
+	}
 	if procs > 0 {
 		full = append(full, "-procs", strconv.Itoa(procs))
 	}
 	cmd := exec.Command(bin, full...)
-	cmd.Env = append(os.Environ(), "GORACE=log_path="+race+" halt_on_error=0 exitcode=0 history_size=3")
+	cmd.Env = append(os.Environ(), "GORACE=log_path="+race+" halt_on_error=0 exitcode=0 history_size=3 atexit_sleep_ms=0")
 	var stderr bytes.Buffer
 	cmd.Stderr = &stderr
 	cmd.Stdout = &stderr
@@ -377,22 +397,24 @@ func loadKnown() map[string]Known {
 // ---- replay / minimisation ----
 
 type Plan struct {
-	Property   string            `json:"property"`
-	TreeDigest string            `json:"tree_digest,omitempty"`
-	Seed       uint64            `json:"seed"`
-	Index      uint64            `json:"index"`
-	RunSeed    uint64            `json:"run_seed"`
-	Tier       string            `json:"tier"`
-	Kind       string            `json:"kind"`
-	Mode       string            `json:"mode"`
-	Pick       int               `json:"pick"`
-	Tasks      [][]json.RawMessage `json:"tasks"`
-	Sched      map[string]interface{} `json:"sched"`
+	Property   string                   `json:"property"`
+	TreeDigest string                   `json:"tree_digest,omitempty"`
+	Seed       uint64                   `json:"seed"`
+	Index      uint64                   `json:"index"`
+	RunSeed    uint64                   `json:"run_seed"`
+	Tier       string                   `json:"tier"`
+	Kind       string                   `json:"kind"`
+	Mode       string                   `json:"mode"`
+	Pick       int                      `json:"pick"`
+	ColdFirst  bool                     `json:"cold_first,omitempty"`
+	Prelude    []uint64                 `json:"prelude,omitempty"`
+	Tasks      [][]json.RawMessage      `json:"tasks"`
+	Sched      map[string]interface{}   `json:"sched"`
 	Faults     []map[string]interface{} `json:"faults"`
-	ReplayMode bool              `json:"replay_mode,omitempty"`
-	Schedule   []Seg             `json:"schedule,omitempty"`
-	Violation  *Violation        `json:"violation,omitempty"`
-	Note       string            `json:"note,omitempty"`
+	ReplayMode bool                     `json:"replay_mode,omitempty"`
+	Schedule   []Seg                    `json:"schedule,omitempty"`
+	Violation  *Violation               `json:"violation,omitempty"`
+	Note       string                   `json:"note,omitempty"`
 }
 
 type Seg struct {
@@ -401,6 +423,10 @@ type Seg struct {
 }
 
 var candSeq int
+
+// probeFile: sample table probed once per check (simc19 -probe); workers load it
+// instead of running the library at start-up.
+var probeFile string
 
 // inexact: the library contains sources of nondeterminism the scheduler does not
 // own (sync.Pool under -race drops a random quarter of the Puts; goroutines,
@@ -595,6 +621,22 @@ func minimise(bin string, p *Plan, key string, budget int, deadline time.Time) (
 		return err == nil && hasKey(r, key) != nil
 	}
 	cur := p
+	// 0. drop the prelude (all of it, then from the front)
+	if len(cur.Prelude) > 0 {
+		c := clonePlan(cur)
+		c.Prelude = nil
+		if try(c) {
+			cur = c
+		}
+	}
+	for len(cur.Prelude) > 0 {
+		c := clonePlan(cur)
+		c.Prelude = c.Prelude[1:]
+		if !try(c) {
+			break
+		}
+		cur = c
+	}
 	// 1. drop tasks (pairs in recycle mode)
 	for t := len(cur.Tasks) - 1; t >= 0 && len(cur.Tasks) > 1; t-- {
 		if t >= len(cur.Tasks) {
@@ -679,6 +721,8 @@ type tierCfg struct {
 	stallLimit time.Duration
 }
 
+const swarmBatch = 25
+
 var tiers = map[string]tierCfg{
 	"quick":    {swarm: 1500, detSeeds: 8, stallLimit: 90 * time.Second},
 	"thorough": {swarm: 100000, detSeeds: 32, stallLimit: 180 * time.Second},
@@ -749,8 +793,14 @@ func main() {
 	}
 
 	fmt.Printf("verifctl c19 tier=%s VERIF_SEED=%d tree=%s build=%.1fs\n", *tier, seed, digest, buildS)
+	// probe the corpus once; every worker then starts cold
+	pf := filepath.Join(scratch, "probe.json")
+	if out, err := run(scratch, os.Environ(), bin, "-probe", pf); err != nil {
+		trouble("worker -probe failed:\n%s", out)
+	}
+	probeFile = pf
 	// catalogue info
-	infoOut, err := run(scratch, os.Environ(), bin, "-info")
+	infoOut, err := run(scratch, os.Environ(), bin, "-cat", pf, "-info")
 	if err != nil {
 		trouble("worker -info failed:\n%s", infoOut)
 	}
@@ -775,32 +825,79 @@ func main() {
 		workers = total
 	}
 
-	// fan out: worker w runs indices w, w+W, w+2W, ...
-	results := make([]workerResult, workers)
+	// Jobs: every focused group and every batch of swarm runs is one fresh worker
+	// process (a cold library at its first run); a pool of `workers` runs them.
+	var jobs [][2]int
+	gkey := "groups_quick"
+	if *tier == "thorough" {
+		gkey = "groups_thorough"
+	}
+	if gl, ok := info[gkey].([]interface{}); ok {
+		for _, g := range gl {
+			if pr, ok := g.([]interface{}); ok && len(pr) == 2 {
+				jobs = append(jobs, [2]int{numOf(pr[0]), numOf(pr[1])})
+			}
+		}
+	}
+	if len(jobs) == 0 {
+		trouble("worker -info reported no focus groups")
+	}
+	delete(info, "groups_quick")
+	delete(info, "groups_thorough")
+	for i := focused; i < total; i += swarmBatch {
+		j := i + swarmBatch
+		if j > total {
+			j = total
+		}
+		jobs = append(jobs, [2]int{i, j})
+	}
+	results := make([]workerResult, len(jobs))
 	var wg sync.WaitGroup
+	next := make(chan int, len(jobs))
+	for j := range jobs {
+		next <- j
+	}
+	close(next)
+	var failed atomic.Bool
 	for w := 0; w < workers; w++ {
 		wg.Add(1)
 		go func(w int) {
 			defer wg.Done()
-			args := []string{"-seed", strconv.FormatUint(seed, 10), "-tier", *tier, "-from", strconv.Itoa(w), "-to", strconv.Itoa(total), "-stride", strconv.Itoa(workers)}
-			results[w] = runWorker(bin, fmt.Sprintf("w%d", w), args, 2, tc.stallLimit)
+			for j := range next {
+				if failed.Load() {
+					return
+				}
+				args := []string{"-seed", strconv.FormatUint(seed, 10), "-tier", *tier, "-from", strconv.Itoa(jobs[j][0]), "-to", strconv.Itoa(jobs[j][1])}
+				results[j] = runWorker(bin, fmt.Sprintf("w%d", w), args, 2, tc.stallLimit)
+				if results[j].hung || results[j].err != nil || results[j].cov == nil {
+					failed.Store(true)
+				}
+			}
 		}(w)
 	}
 	wg.Wait()
 	var recs []Record
 	var cov *covRec
-	for w, r := range results {
+	jobOf := map[uint64]int{}
+	for j, r := range results {
 		if r.hung {
-			fmt.Printf("HANG: worker %d made no progress for %v; last started run index %d (VERIF_SEED=%d tier=%s). "+
-				"The simulator cannot tell a library deadlock from a blocking primitive it has no seam for; not reported as a violation.\n", w, tc.stallLimit, r.lastIdx, seed, *tier)
+			fmt.Printf("HANG: a worker (runs %d..%d) made no progress for %v; last started run index %d (VERIF_SEED=%d tier=%s). "+
+				"The simulator cannot tell a library deadlock from a blocking primitive it has no seam for; not reported as a violation.\n", jobs[j][0], jobs[j][1]-1, tc.stallLimit, r.lastIdx, seed, *tier)
 			trouble("worker hang (see above)")
 		}
-		if r.err != nil || r.cov == nil {
-			trouble("worker %d failed: %v (last started run index %d)\n%s", w, r.err, r.lastIdx, tail(r.output, 4000))
+		if r.err != nil || (r.cov == nil && (r.recs != nil || !failed.Load())) {
+			trouble("worker for runs %d..%d failed: %v (last started run index %d)\n%s", jobs[j][0], jobs[j][1]-1, r.err, r.lastIdx, tail(r.output, 4000))
+		}
+		if r.cov == nil {
+			continue
+		}
+		for i := range r.recs {
+			jobOf[r.recs[i].Index] = j
 		}
 		recs = append(recs, r.recs...)
 		if cov == nil {
 			cov = r.cov
+			cov.dense()
 		} else {
 			mergeCov(cov, r.cov)
 		}
@@ -812,7 +909,7 @@ func main() {
 	simWall := time.Since(t0).Seconds() - buildS
 
 	// determinism self-test
-	det := selfTest(bin, seed, *tier, recs, tc.detSeeds)
+	det := selfTest(bin, seed, *tier, recs, jobs, tc.detSeeds)
 	if det.schedMismatch != "" {
 		if !inexact {
 			trouble("determinism self-test: schedule digests differ between processes: %s", det.schedMismatch)
@@ -940,6 +1037,20 @@ func main() {
 		// first: does the executed schedule replay in a fresh process?
 		rr, err := replayUntil(bin, &plan, k)
 		if err != nil || hasKey(rr, k) == nil {
+			// it was not the first run of its worker process: replay its predecessors too
+			// (whatever they left behind in the library is part of the finding)
+			if j, ok := jobOf[best.Index]; ok && uint64(jobs[j][0]) < best.Index {
+				withPre := clonePlan(&plan)
+				for i := uint64(jobs[j][0]); i < best.Index; i++ {
+					withPre.Prelude = append(withPre.Prelude, i)
+				}
+				if r2, e2 := replayUntil(bin, withPre, k); e2 == nil && hasKey(r2, k) != nil {
+					plan = *withPre
+					rr, err = r2, nil
+				}
+			}
+		}
+		if err != nil || hasKey(rr, k) == nil {
 			// fall back to regeneration from the seed (same decisions, PRNG-driven)
 			gen := clonePlan(&plan)
 			gen.Schedule = nil
@@ -1042,6 +1153,8 @@ func sanitize(s string) string {
 }
 
 func mergeCov(a, b *covRec) {
+	a.dense()
+	b.dense()
 	for i := range a.Exec {
 		if i < len(b.Exec) {
 			s := uint64(a.Exec[i]) + uint64(b.Exec[i])
@@ -1076,57 +1189,59 @@ type detResult struct {
 	resultMismatch []detMismatch
 }
 
-func selfTest(bin string, seed uint64, tier string, recs []Record, n int) detResult {
+func selfTest(bin string, seed uint64, tier string, recs []Record, jobs [][2]int, n int) detResult {
 	var res detResult
-	if len(recs) == 0 {
+	if len(recs) == 0 || len(jobs) == 0 {
 		return res
 	}
-	// evenly spaced indices, preferring runs with pre-emption
-	var idxs []uint64
-	step := len(recs) / n
-	if step == 0 {
-		step = 1
-	}
-	for i := 0; i < len(recs) && len(idxs) < n; i += step {
-		j := i
-		for k := 0; k < step && j+k < len(recs); k++ {
-			if recs[j+k].Switches > 0 {
-				j += k
-				break
-			}
-		}
-		idxs = append(idxs, recs[j].Index)
-	}
-	res.seeds = len(idxs)
 	byIdx := map[uint64]*Record{}
 	for i := range recs {
 		byIdx[recs[i].Index] = &recs[i]
 	}
-	var list []string
-	for _, i := range idxs {
-		list = append(list, strconv.FormatUint(i, 10))
+	// Whole jobs are re-executed, each in a fresh process, so that every run meets the
+	// library in the same state (cold at the first run of the job, warmed by the same
+	// predecessors afterwards) as in the main exploration. Evenly spaced jobs,
+	// preferring ones that contain a pre-empted run.
+	var pick []int
+	step := len(jobs) / n
+	if step == 0 {
+		step = 1
 	}
-	for _, procs := range []int{1, 4, 16} {
-		r := runWorker(bin, fmt.Sprintf("det%d", procs), []string{"-seed", strconv.FormatUint(seed, 10), "-tier", tier, "-indices", strings.Join(list, ","), "-plans"}, procs, 180*time.Second)
-		if r.hung || r.err != nil {
-			res.schedMismatch = fmt.Sprintf("self-test worker (GOMAXPROCS=%d) failed: hung=%v err=%v", procs, r.hung, r.err)
-			return res
-		}
-		for i := range r.recs {
-			x := &r.recs[i]
-			ref := byIdx[x.Index]
-			if ref == nil {
-				continue
+	for i := 0; i < len(jobs) && len(pick) < n; i += step {
+		j := i
+		for k := 0; k < step && i+k < len(jobs); k++ {
+			if r := byIdx[uint64(jobs[i+k][0])]; r != nil && r.Switches > 0 {
+				j = i + k
+				break
 			}
-			res.executions++
-			if x.SchedDigest != ref.SchedDigest || x.Yields != ref.Yields || x.Switches != ref.Switches {
-				res.schedMismatch = fmt.Sprintf("run index %d: main run sched=%x yields=%d switches=%d, fresh process (GOMAXPROCS=%d) sched=%x yields=%d switches=%d",
-					x.Index, ref.SchedDigest, ref.Yields, ref.Switches, procs, x.SchedDigest, x.Yields, x.Switches)
+		}
+		pick = append(pick, j)
+	}
+	res.seeds = len(pick)
+	for _, procs := range []int{1, 4, 16} {
+		for _, j := range pick {
+			r := runWorker(bin, fmt.Sprintf("det%d", procs), []string{"-seed", strconv.FormatUint(seed, 10), "-tier", tier,
+				"-from", strconv.Itoa(jobs[j][0]), "-to", strconv.Itoa(jobs[j][1]), "-plans"}, procs, 180*time.Second)
+			if r.hung || r.err != nil {
+				res.schedMismatch = fmt.Sprintf("self-test worker (GOMAXPROCS=%d, runs %d..%d) failed: hung=%v err=%v", procs, jobs[j][0], jobs[j][1]-1, r.hung, r.err)
 				return res
 			}
-			if x.ResultDigest != ref.ResultDigest {
-				res.resultMismatch = append(res.resultMismatch, detMismatch{index: x.Index, fams: strings.Join(x.Fams, "+"),
-					detail: fmt.Sprintf("result digest %x vs %x at GOMAXPROCS=%d", ref.ResultDigest, x.ResultDigest, procs), plan: x.Plan})
+			for i := range r.recs {
+				x := &r.recs[i]
+				ref := byIdx[x.Index]
+				if ref == nil {
+					continue
+				}
+				res.executions++
+				if x.SchedDigest != ref.SchedDigest || x.Yields != ref.Yields || x.Switches != ref.Switches {
+					res.schedMismatch = fmt.Sprintf("run index %d: main run sched=%x yields=%d switches=%d, fresh process (GOMAXPROCS=%d) sched=%x yields=%d switches=%d",
+						x.Index, ref.SchedDigest, ref.Yields, ref.Switches, procs, x.SchedDigest, x.Yields, x.Switches)
+					return res
+				}
+				if x.ResultDigest != ref.ResultDigest {
+					res.resultMismatch = append(res.resultMismatch, detMismatch{index: x.Index, fams: strings.Join(x.Fams, "+"),
+						detail: fmt.Sprintf("result digest %x vs %x at GOMAXPROCS=%d", ref.ResultDigest, x.ResultDigest, procs), plan: x.Plan})
+				}
 			}
 		}
 	}
